@@ -18,6 +18,8 @@ pub struct VolCfg {
     pub extra: u32,
     /// fill unwritten data-area pages with a non-zero garbage byte
     pub garbage: bool,
+    /// sectors after the last whole cluster (a partial cluster that must never be used)
+    pub slack: u8,
 }
 
 impl VolCfg {
@@ -32,7 +34,7 @@ impl VolCfg {
             self.clusters,
             if self.extra > 0 { "-emb" } else { "" },
             if self.garbage { "-garb" } else { "" }
-        )
+        ) + &(if self.slack % self.spc.max(1) > 0 { format!("-slack{}", self.slack % self.spc) } else { String::new() })
     }
     pub fn class(&self) -> String {
         format!("fat{}-bps{}-spc{}-f{}-re{}", self.fat, self.bps, self.spc, self.nfats, self.root_entries)
@@ -47,7 +49,7 @@ impl VolCfg {
         let entries = u64::from(self.clusters) + 2;
         let fat_bytes = (entries * u64::from(self.fat) + 7) / 8;
         let spf = (fat_bytes + bps - 1) / bps + 1;
-        (reserved + u64::from(self.nfats) * spf + root_secs + u64::from(self.clusters) * u64::from(self.spc)) as u32
+        (reserved + u64::from(self.nfats) * spf + root_secs + u64::from(self.clusters) * u64::from(self.spc) + u64::from(self.slack % self.spc.max(1))) as u32
     }
 }
 
@@ -61,7 +63,7 @@ pub fn make_volume(cfg: &VolCfg) -> Result<(Image, u64), String> {
     let mut img = Image::new(vol_bytes + u64::from(cfg.extra));
     if cfg.garbage {
         // from the first page boundary after a generous metadata estimate; format zero-fills what it needs
-        let meta = vol_bytes - u64::from(cfg.clusters) * u64::from(cfg.spc) * u64::from(cfg.bps);
+        let meta = vol_bytes - (u64::from(cfg.clusters) * u64::from(cfg.spc) + u64::from(cfg.slack % cfg.spc.max(1))) * u64::from(cfg.bps);
         let start = (meta + PAGE as u64 - 1) / PAGE as u64 * PAGE as u64 + PAGE as u64;
         if start < vol_bytes {
             img.set_fill_from(start, GARBAGE);
@@ -133,6 +135,7 @@ pub fn grid(rng: &mut Rng, tiny: bool) -> VolCfg {
         clusters,
         extra: if rng.chance(1, 3) { 8192 } else { 0 },
         garbage: rng.chance(2, 3),
+        slack: if spc > 1 && rng.chance(1, 2) { 1 + rng.below(u64::from(spc) - 1) as u8 } else { 0 },
     }
 }
 
@@ -149,6 +152,6 @@ pub fn small_cfg(fat: u8) -> VolCfg {
             _ => 65600,
         },
         extra: 4096,
-        garbage: true,
+        garbage: true, slack: 0
     }
 }
